@@ -515,7 +515,8 @@ func lenZeroReaches(fn *ssa.Function, target ssa.Instruction) bool {
 }
 
 func C30(c *Ctx) {
-	c.Note("the raft-backed deployment (IncrBy reads at one PD timestamp and writes at a later one; a commit in between is not detected – seen by reading, not decidable by these rules); fingerprint collisions; retry policy on conflicts")
+	c.Note("fingerprint collisions; retry policy on conflicts")
+	raftRMWGroup(c, "K1.raft-rmw-reads-at-its-start-version")
 	conflictTestShapeGroup(c, "K2.conflict-test-shape")
 	const r1 = "K11.conflict-detection-enabled"
 	c.Rule(r1, "cmd/nokv-redis main: the Options value passed to NoKV.Open has DetectConflicts stored true on every path to the call (and no later store of false); NewDefaultOptions is reached through the single-assignment package variable newDefaultOptions")
@@ -987,4 +988,100 @@ func txnEffects(c *Ctx, f *ssa.Function, txn ssa.Value, m Matcher, depth int) (i
 		}
 	})
 	return n, all
+}
+
+// raftRMWGroup (C30): the raft backend's read-modify-write commands (INCR family, SET NX/XX) are
+// Percolator transactions driven by the gateway.  Prewrite rejects only commits at or above the
+// start version, so the value must be read at the very version the write is prewritten with; a
+// read at one reserved timestamp followed by a write that reserves a later start version lets a
+// commit in between go unnoticed (lost update, two successful SET NX).  And a read that met a
+// lock must come back as a conflict, not as an empty value.
+func raftRMWGroup(c *Ctx, rule string) {
+	c.Rule(rule, "in raftBackend.IncrBy and raftBackend.Set every body (function or closure) that reads the key and then writes it reads with raftBackend.getAtVersion(key, v) and writes with raftBackend.mutateAt(v, …) on the same value v – no Get/MGet (fresh timestamp) before a write, no mutate/Set/deleteKeys-style write (fresh start version) after a read; mutateAt hands its start parameter to Client.Mutate as the start version; Client.BatchGet turns a GetResponse.Error into an error return")
+	readAt := Named(redisPkg + ".(*raftBackend).getAtVersion")
+	readFresh := Named(redisPkg+".(*raftBackend).Get", redisPkg+".(*raftBackend).MGet")
+	writeAt := Named(redisPkg + ".(*raftBackend).mutateAt")
+	writeFresh := Named(redisPkg+".(*raftBackend).mutate", redisPkg+".(*raftBackend).Set")
+	n := 0
+	for _, name := range []string{"raftBackend.IncrBy", "raftBackend.Set"} {
+		fn := c.Fn(redisPkg, name)
+		if fn == nil {
+			continue
+		}
+		bodies := append([]*ssa.Function{fn}, fn.AnonFuncs...)
+		for _, g := range bodies {
+			reads := Calls(g, false, func(cc *ssa.CallCommon) bool { return readAt(cc) || readFresh(cc) })
+			writes := Calls(g, false, func(cc *ssa.CallCommon) bool { return writeAt(cc) || writeFresh(cc) })
+			// only writes that can follow a read make the body a read-modify-write
+			var rmw []ssa.CallInstruction
+			for _, w := range writes {
+				for _, r := range reads {
+					if reach, _ := CutReach(g, r.(ssa.Instruction), w.(ssa.Instruction), nil, nil); reach {
+						rmw = append(rmw, w)
+						break
+					}
+				}
+			}
+			if len(rmw) == 0 {
+				continue
+			}
+			n++
+			var bad []string
+			var v ssa.Value
+			for _, r := range reads {
+				if !readAt(r.Common()) {
+					bad = append(bad, "the value is read with a fresh timestamp ("+CalleeObj(r.Common()).Name()+")")
+					continue
+				}
+				rv := Unwrap(r.Common().Args[2])
+				if v == nil {
+					v = rv
+				} else if v != rv {
+					bad = append(bad, "the reads use different versions")
+				}
+			}
+			for _, w := range rmw {
+				if !writeAt(w.Common()) {
+					bad = append(bad, "the write reserves its own, later start version ("+CalleeObj(w.Common()).Name()+")")
+					continue
+				}
+				if v == nil || Unwrap(w.Common().Args[1]) != v {
+					bad = append(bad, "mutateAt is not given the version the value was read at")
+				}
+			}
+			c.Decide(len(bad) == 0, rule, key(g, "read-version==start-version"), g.Pos(), len(reads)+len(rmw)+1, "the command reads at the version it prewrites with", strings.Join(bad, "; ")+": a commit between the read and the start version is invisible to the prewrite check, so concurrent INCRs lose updates and two SET NX both succeed")
+		}
+	}
+	c.Floor(rule, n, 2, "read-modify-write bodies in raftBackend.IncrBy / Set")
+	if fn := c.FnOpt(redisPkg, "raftBackend.mutateAt"); fn != nil && len(fn.Params) > 1 {
+		ok := false
+		for _, m := range Calls(fn, false, func(cc *ssa.CallCommon) bool { o := CalleeObj(cc); return o != nil && o.Name() == "Mutate" }) {
+			// (ctx, primary, mutations, startVersion, commitVersion, lockTTL), behind the
+			// receiver for a static call
+			a, at := m.Common().Args, 3
+			if !m.Common().IsInvoke() {
+				at = 4
+			}
+			if len(a) > at && Unwrap(a[at]) == fn.Params[1] {
+				ok = true
+			}
+		}
+		c.Decide(ok, rule, key(fn, "start-param→Client.Mutate.startVersion"), fn.Pos(), 2, "mutateAt prewrites with the version it is given", "mutateAt does not hand its start parameter to Client.Mutate as the start version")
+	}
+	if fn := c.Fn("raftstore/client", "Client.BatchGet"); fn != nil {
+		ge := Calls(fn, false, Named("(*pb.GetResponse).GetError"))
+		ok := false
+		for _, g := range ge {
+			for _, e := range NilEdges(fn, map[ssa.Value]bool{g.Value(): true}) {
+				for _, r := range Returns(fn) {
+					if len(r.Results) == 2 && !IsNilConst(r.Results[1]) {
+						if reach, _ := reachFromBlock(fn, e.NonNil[1], r, nil); reach {
+							ok = true
+						}
+					}
+				}
+			}
+		}
+		c.Decide(ok, rule, key(fn, "GetResponse.Error→error-return"), fn.Pos(), len(ge)+1, "a read that met a lock is reported as a conflict", "Client.BatchGet hands a GetResponse whose Error is set (the read met a lock: no value) to its caller like a hit: the Redis raft backend reads the locked key as present with an empty value – GET returns \"\" and INCR starts from 0")
+	}
 }
